@@ -258,7 +258,7 @@ func c12Run(c *Ctx, ecs bool) {
 			addr = netip.MustParseAddr(ip)
 			xo.LocalIP = ip
 		}
-		qtype := gen.Pick(r, []uint16{dns.TypeA, dns.TypeAAAA, dns.TypeTXT})
+		qtype := gen.Pick(r, []uint16{dns.TypeA, dns.TypeAAAA, dns.TypeTXT, dns.TypeANY, dns.TypeANY, 65, dns.TypeMX, dns.TypeSOA})
 		var firstSerial uint32
 		for round := 0; round < 2; round++ { // second round is answered from cache
 			id := uint16(r.Intn(65536))
